@@ -73,45 +73,90 @@ def run_mc(v, pid, w, tier):
     log("design run EthTx_mc/%s: %d distinct states, %d transitions, all laws hold" % (cfg, r["distinct"], r["generated"]))
 
 
-def ethtx_binding(v, pid, w, focus, sz, seed, corrupt_fn=None, tag=""):
+def _split_traces(lines):
+    out, cur = [], []
+    for ln in lines:
+        if '"ev":"Genesis"' in ln and cur:
+            out.append(cur)
+            cur = []
+        cur.append(ln)
+    if cur:
+        out.append(cur)
+    return out
+
+
+def _write_chunk(dd, traces, programs):
+    """A chunk directory holds its traces and ONLY their programs (validation time grows with the size of the program table)."""
+    with open(os.path.join(dd, "trace.ndjson"), "w") as f:
+        f.write("\n".join(ln for t in traces for ln in t) + "\n")
+    tids = [json.loads(t[0]).get("tid", "") + "_" for t in traces]
+    sub = {k: pv for k, pv in programs.items() if any(k.startswith(x) for x in tids)}
+    with open(os.path.join(dd, "programs.json"), "w") as f:
+        json.dump(sub, f)
+
+
+def ethtx_binding(v, pid, w, focus, sz, seed, corrupt_fn=None, tag="", chunk=30):
     """Seeded histories of the real application validated by TraceEthTx.tla with the given law groups in Focus.
     Adds to the verdict v (violations, coverage). corrupt_fn(pid, lines) -> (lines, lineno) drives the binding self-test."""
+    import concurrent.futures
     d = w.sub("traces" + tag)
-    vlib.vh(["ethtx", "-seed", str(seed), "-traces", str(sz["traces"]), "-blocks", str(sz["blocks"]), "-out", d])
+    vlib.vh(["ethtx", "-seed", str(seed), "-traces", str(sz["traces"]), "-blocks", str(sz["blocks"]), "-out", d], timeout=7000)
     lines = vlib.read_lines(os.path.join(d, "trace.ndjson"))
-    ntraces = sum(1 for ln in lines if '"ev":"Genesis"' in ln)
+    with open(os.path.join(d, "programs.json")) as f:
+        programs = json.load(f)
+    traces = _split_traces(lines)
+    ntraces = len(traces)
     cov_total = {}
-    rejected_traces = 0
-    remaining = lines
-    rounds = 0
+    chunks = [traces[i:i + chunk] for i in range(0, ntraces, chunk)]
+
+    def run_chunk(args):
+        ci, part = args
+        res = dict(states=0, cov={}, skipped=[], viol=[], rejected=0)
+        rounds = 0
+        while part and rounds < 4:
+            rounds += 1
+            dd = w.sub("val%s_%d_%d" % (tag, ci, rounds))
+            _write_chunk(dd, part, programs)
+            r = validate_dir(dd, focus)
+            res["states"] += r["states"]
+            if r["err"] is None:
+                res["cov"] = r["coverage"]
+                res["skipped"] = ["%s/%s" % (g, dt) for _, g, dt in r["skipped"]][:20]
+                break
+            line, group, detail = r["err"]
+            n = 0
+            for ti, t in enumerate(part):
+                if line <= n + len(t):
+                    break
+                n += len(t)
+            res["viol"].append((group, detail, part[ti], line - n, r["out"][-20000:]))
+            res["rejected"] += 1
+            part = part[:ti] + part[ti + 1:]
+        return res
+
     states = 0
-    while remaining and rounds < 4:
-        rounds += 1
-        dd = w.sub("val%s%d" % (tag, rounds))
-        with open(os.path.join(dd, "trace.ndjson"), "w") as f:
-            f.write("\n".join(remaining) + "\n")
-        os.link(os.path.join(d, "programs.json"), os.path.join(dd, "programs.json"))
-        r = validate_dir(dd, focus)
-        states += r["states"]
-        if r["err"] is None:
-            for k, n in r["coverage"].items():
+    rejected_traces = 0
+    seen_sigs = set()
+    with concurrent.futures.ThreadPoolExecutor(max_workers=6) as ex:
+        for res in ex.map(run_chunk, list(enumerate(chunks))):
+            states += res["states"]
+            rejected_traces += res["rejected"]
+            for k, n in res["cov"].items():
                 cov_total[k] = cov_total.get(k, 0) + n
-            v.cov.setdefault("skipped_out_of_focus", []).extend(["%s/%s" % (g, dt) for _, g, dt in r["skipped"]][:20])
-            break
-        line, group, detail = r["err"]
-        a, b = vlib.trace_of_line(remaining, line)
-        bad = remaining[a:b + 1]
-        tid = json.loads(bad[0]).get("tid", "trace")
-        rp = vlib.save_replay(pid, tid, [(bad, "trace.ndjson"), (os.path.join(d, "programs.json"), "programs.json")],
-                              "law %s/%s broken at line %d of this trace (seed %d); re-check: bin/check %s --replay <this dir>"
-                              % (group, detail, line - a, seed, pid))
-        with open(os.path.join(rp, "tlc.out"), "w") as f:
-            f.write(r["out"][-20000:])
-        v.violation("%s/%s" % (group, detail), rp, "trace %s line %d: %s" % (tid, line - a, bad[line - 1 - a][:300]))
-        rejected_traces += 1
-        remaining = remaining[:a] + remaining[b + 1:]
-        if len(set(x[0] for x in v.violations)) < len(v.violations):
-            break  # the same law again: enough
+            v.cov.setdefault("skipped_out_of_focus", []).extend(res["skipped"])
+            for group, detail, bad, at, out in res["viol"]:
+                sig = "%s/%s" % (group, detail)
+                if sig in seen_sigs and len(v.violations) >= 4:
+                    continue  # the same law again: enough replays saved
+                seen_sigs.add(sig)
+                tid = json.loads(bad[0]).get("tid", "trace")
+                _write_prog = {k: pv for k, pv in programs.items() if k.startswith(tid + "_")}
+                rp = vlib.save_replay(pid, tid, [(bad, "trace.ndjson"), ([json.dumps(_write_prog)], "programs.json")],
+                                      "law %s broken at line %d of this trace (seed %d); re-check: bin/check %s --replay <this dir>" % (sig, at, seed, pid))
+                with open(os.path.join(rp, "tlc.out"), "w") as f:
+                    f.write(out)
+                v.violation(sig, rp, "trace %s line %d: %s" % (tid, at, bad[at - 1][:300]))
+    v.cov["skipped_out_of_focus"] = v.cov.get("skipped_out_of_focus", [])[:20]
     v.cov["states"] += states
     v.cov["transitions"] += states
     v.cov["traces_validated_against_impl"] += ntraces - rejected_traces
@@ -132,9 +177,7 @@ def ethtx_binding(v, pid, w, focus, sz, seed, corrupt_fn=None, tag=""):
     if bad is None:
         raise Infra("self-test: nothing to corrupt in any trace")
     ds = w.sub("selftest" + tag)
-    with open(os.path.join(ds, "trace.ndjson"), "w") as f:
-        f.write("\n".join(bad) + "\n")
-    os.link(os.path.join(d, "programs.json"), os.path.join(ds, "programs.json"))
+    _write_chunk(ds, [bad], programs)
     rs = validate_dir(ds, focus)
     if rs["err"] is None:
         raise Infra("binding self-test failed: a trace with a corrupted field (line %d) was accepted" % at)
